@@ -286,7 +286,12 @@ func checkTaintSink(c *Ctx, rule string, e *Env, sk taintSink, depth int) {
 		construct := sk.what + ": " + atom
 		facts := e.LinFactsAt(sk.in, nil)
 		for x := e; x.Parent != nil; x = x.Parent {
-			facts = append(facts, x.Parent.LinFactsAt(x.Call, nil)...)
+			if x.Call == nil {
+				continue
+			}
+			if ci, ok := x.Call.(ssa.Instruction); ok && ci.Parent() == x.Parent.Fn {
+				facts = append(facts, x.Parent.LinFactsAt(x.Call, nil)...)
+			}
 		}
 		if by, ok := boundedBy(facts, atom); ok {
 			c.OK(rule, FuncName(fn), construct, c.P.InstrPos(sk.in), "bounded before use: "+by)
